@@ -180,7 +180,7 @@ def run_job(cfile, job, workdir):
             if "ignoring" in ln or "no body for" in ln.lower():
                 r.warnings.append(ln.strip())
         target = b
-    cb = ["cbmc", target, "--json-ui", "--trace"]
+    cb = ["cbmc", target, "--json-ui", "--trace", "--drop-unused-functions"]
     if job.no_std_checks:
         cb += ["--no-standard-checks"]
     else:
